@@ -7,46 +7,12 @@
    the known finding (overlap): it is not covered here. *)
 From Coq Require Import ZArith Lia List Bool.
 From Cntgs Require Import Base BaseLemmas Layout LayoutThm Mem MemLemmas Vector Spec Rep ElemLemmas Ordered
-  EsizeThm Refine LifeThm.
+  EsizeThm Refine LifeThm FixedErase.
+From Cntgs Require Export NtBase.
 Import ListNotations.
 Local Open Scope Z_scope.
 
 (* ---------- scribbling over destroyed objects ---------- *)
-Lemma scribble_out : forall n m a sz pat x, length pat = Z.to_nat sz -> 0 < sz ->
-  ~ (a <= x < a + Z.of_nat n * sz) -> scribble m a sz n pat x = m x.
-Proof.
-  induction n as [|n IH]; intros m a sz pat x Hl Hs Hx; [reflexivity|].
-  cbn [scribble]. rewrite IH; auto; [|nia].
-  apply mwrite_out. rewrite Hl, Z2Nat.id by lia. nia.
-Qed.
-
-Lemma dead_bytes_length n : length (dead_bytes n) = Z.to_nat n.
-Proof. unfold dead_bytes. apply repeat_length. Qed.
-
-Lemma ordered_from_le es : forall lo hi, ordered_from lo es hi -> lo <= hi.
-Proof.
-  induction es as [|[b e] es IH]; intros lo hi H; cbn [ordered_from] in H; [exact H|].
-  destruct H as (H1 & H2 & H). specialize (IH _ _ H). lia.
-Qed.
-
-(* destroying the fields of an element leaves everything outside the element untouched *)
-Lemma destruct_fields_frame L : forall cnts xs bid m lo hi y,
-  Forall wfp L -> Forall (fun c => 0 <= c) cnts ->
-  ordered_from lo (extents L cnts xs) hi -> ~ (lo <= y < hi) ->
-  fst (destruct_fields L (combine xs cnts) bid m) y = m y.
-Proof.
-  induction L as [|p L IH]; intros cnts xs bid m lo hi y HF Hc Ho Hy; [reflexivity|].
-  destruct xs as [|x xs]; [reflexivity|]. destruct cnts as [|c cnts]; [reflexivity|].
-  cbn [combine destruct_fields]. cbn [extents ordered_from] in Ho. destruct Ho as (H1 & H2 & Ho).
-  apply Forall_cons_iff in HF. destruct HF as [[Hs _] HF]. inversion Hc; subst.
-  pose proof (ordered_from_le _ _ _ Ho) as Hle.
-  specialize (IH cnts xs bid (if ntd p then scribble m x (psz p) (Z.to_nat c) (dead_bytes (psz p)) else m)
-                 (x + c * psz p) hi y HF ltac:(assumption) Ho ltac:(lia)).
-  destruct (destruct_fields L (combine xs cnts) bid _) as [m2 evs2]. cbn [fst] in *.
-  rewrite IH. destruct (ntd p); [|reflexivity].
-  apply scribble_out; [apply dead_bytes_length|exact Hs|]. rewrite Z2Nat.id by lia. lia.
-Qed.
-
 (* ---------- relocation through copy / move constructors ---------- *)
 Lemma moved_bytes_length n : length (moved_bytes n) = Z.to_nat n.
 Proof. unfold moved_bytes. apply repeat_length. Qed.
@@ -505,6 +471,67 @@ Section Nt.
     destruct (vstep_rep_nt junk v s o R Hc Hv1 Hn1) as (R' & Hc' & Hf).
     apply IH; auto. rewrite Hf. exact Hv2.
   Qed.
+
+  (* ---------- lists without a VaryingSize parameter: every operation ---------- *)
+  (* on such a list erase() with elements behind the erased ones move-assigns them forward
+     field by field (FixedErase.v), whatever the value types are; so NO restriction on the
+     history is left there *)
+  Definition nt_okx (s : svec) (o : sop) : Prop := has_varying L = false \/ nt_ok s o.
+
+  Theorem vstep_rep_ntx junk v s o :
+    Rep L v (s_elems s) -> v_cap v = s_cap s -> svalid L (fixed_counts L (v_fixed v)) s o -> nt_okx s o ->
+    Rep L (vstep L junk v o) (s_elems (sstep s o)) /\ v_cap (vstep L junk v o) = s_cap (sstep s o) /\
+    v_fixed (vstep L junk v o) = v_fixed v.
+  Proof.
+    intros R Hc Hv [Hnv|Hn]; [|exact (vstep_rep_nt junk v s o R Hc Hv Hn)].
+    destruct (all_triv L) eqn:Ht.
+    { apply vstep_rep_nt; auto. left. exact Ht. }
+    destruct o as [t| |i|i j| |n b]; try (apply vstep_rep_nt; auto; right; exact I).
+    - cbn [svalid] in Hv.
+      destruct (Z.eq_dec (i + 1) (Z.of_nat (length (s_elems s)))) as [E|E].
+      { apply vstep_rep_nt; auto. right. exact E. }
+      destruct R as [offs R]. cbn [vstep sstep s_elems s_cap].
+      pose proof (erase_rep_fixed_nt L Hwf Hnv Ht v _ offs R (Z.to_nat i) ltac:(lia)) as H.
+      rewrite Z2Nat.id in H by lia. cbv zeta in H. destruct H as (H1 & H2 & H3).
+      split; [exact H1|]. split; [congruence|exact H3].
+    - cbn [svalid] in Hv. destruct Hv as [Hi Hj].
+      destruct (Z.eq_dec j (Z.of_nat (length (s_elems s)))) as [E|E].
+      { apply vstep_rep_nt; auto. cbn [svalid]. auto. right. exact E. }
+      destruct R as [offs R]. cbn [vstep sstep s_elems s_cap].
+      pose proof (erase_range_rep_fixed_nt L Hwf Hnv Ht v _ offs R (Z.to_nat i) (Z.to_nat j)
+                    ltac:(lia) ltac:(left; lia) ltac:(lia)) as H.
+      rewrite !Z2Nat.id in H by lia. cbv zeta in H. destruct H as (H1 & H2 & H3).
+      split; [exact H1|]. split; [congruence|exact H3].
+  Qed.
+
+  Fixpoint nt_hist_okx (s : svec) (h : list sop) : Prop :=
+    match h with
+    | [] => True
+    | o :: h' => nt_okx s o /\ nt_hist_okx (sstep s o) h'
+    end.
+
+  Lemma nt_hist_ok_okx h : forall s, nt_hist_ok s h -> nt_hist_okx s h.
+  Proof.
+    induction h as [|o h IH]; intros s H; cbn [nt_hist_ok nt_hist_okx] in *; [exact I|].
+    destruct H as [H1 H2]. split; [right; exact H1|apply IH; exact H2].
+  Qed.
+
+  Lemma nt_hist_okx_fixed h : has_varying L = false -> forall s, nt_hist_okx s h.
+  Proof.
+    intros Hnv. induction h as [|o h IH]; intros s; cbn [nt_hist_okx]; [exact I|].
+    split; [left; exact Hnv|apply IH].
+  Qed.
+
+  Theorem vrun_rep_ntx junk h : forall v s,
+    Rep L v (s_elems s) -> v_cap v = s_cap s -> shist_valid L (fixed_counts L (v_fixed v)) s h ->
+    nt_hist_okx s h ->
+    Rep L (vrun L junk v h) (s_elems (srun s h)) /\ v_cap (vrun L junk v h) = s_cap (srun s h).
+  Proof.
+    induction h as [|o h IH]; intros v s R Hc Hv Hn; cbn [vrun srun shist_valid nt_hist_okx] in *; [auto|].
+    destruct Hv as [Hv1 Hv2]. destruct Hn as [Hn1 Hn2].
+    destruct (vstep_rep_ntx junk v s o R Hc Hv1 Hn1) as (R' & Hc' & Hf).
+    apply IH; auto. rewrite Hf. exact Hv2.
+  Qed.
 End Nt.
 
 (* C01 for EVERY well-formed parameter list - trivially copyable and non-trivial value types
@@ -529,6 +556,46 @@ Proof.
   cbv zeta in *.
   destruct (vrun_rep_nt L Hwf junk h _ {| s_cap := cap; s_elems := [] |} R0 Hc0) as (R & Hc); auto.
   destruct (rep_obs_nt L Hwf _ _ R) as (H1 & H2). auto.
+Qed.
+
+(* the same with the weaker restriction: NO restriction at all on a list without a VaryingSize
+   parameter - there every valid history, erase() in the middle over non-trivially relocatable
+   value types included, keeps the vector a faithful image of the list of tuples *)
+Theorem refinement_every_list_x : forall L cap budget fixed aid junk bid tbid h,
+  wf_plist L = true -> 0 <= cap -> Forall (fun c => 0 <= c) fixed ->
+  let v0 := fst (mkvec L cap budget fixed aid junk bid tbid) in
+  let s0 := {| s_cap := cap; s_elems := [] |} in
+  shist_valid L (fixed_counts L fixed) s0 h -> nt_hist_okx L s0 h ->
+  let v := vrun L junk v0 h in
+  let s := srun s0 h in
+  vsize L v = Z.of_nat (length (s_elems s)) /\
+  v_cap v = s_cap s /\
+  forall i, (i < length (s_elems s))%nat ->
+    read_elem L (v_fixed v) (v_mem v) (eaddr L v (Z.of_nat i)) = nth i (s_elems s) [].
+Proof.
+  intros L cap budget fixed aid junk bid tbid h Hwf Hcap Hfx. cbv zeta. intros Hv Hn.
+  assert (Hst : has_varying L = false -> stride_ok L (fixed_counts L fixed) (snd (esize L fixed))).
+  { intros Hnv. apply esize_stride_ok; auto. apply fixed_counts_nonneg; auto. }
+  destruct (mkvec_rep L Hwf cap budget fixed aid junk bid tbid Hcap Hst) as (R0 & Hc0 & Hf0).
+  cbv zeta in *.
+  destruct (vrun_rep_ntx L Hwf junk h _ {| s_cap := cap; s_elems := [] |} R0 Hc0) as (R & Hc); auto.
+  destruct (rep_obs_nt L Hwf _ _ R) as (H1 & H2). auto.
+Qed.
+
+Corollary refinement_fixed_list_every_history : forall L cap budget fixed aid junk bid tbid h,
+  wf_plist L = true -> has_varying L = false -> 0 <= cap -> Forall (fun c => 0 <= c) fixed ->
+  let v0 := fst (mkvec L cap budget fixed aid junk bid tbid) in
+  let s0 := {| s_cap := cap; s_elems := [] |} in
+  shist_valid L (fixed_counts L fixed) s0 h ->
+  let v := vrun L junk v0 h in
+  let s := srun s0 h in
+  vsize L v = Z.of_nat (length (s_elems s)) /\
+  v_cap v = s_cap s /\
+  forall i, (i < length (s_elems s))%nat ->
+    read_elem L (v_fixed v) (v_mem v) (eaddr L v (Z.of_nat i)) = nth i (s_elems s) [].
+Proof.
+  intros L cap budget fixed aid junk bid tbid h Hwf Hnv Hcap Hfx. cbv zeta. intros Hv.
+  apply refinement_every_list_x; auto. apply nt_hist_okx_fixed. exact Hnv.
 Qed.
 
 (* the hypotheses are satisfiable for a list with a non-trivial type:
@@ -562,7 +629,7 @@ Theorem rep_every_history_nt : forall L cap budget fixed aid junk bid tbid h,
   wf_plist L = true -> 0 <= cap -> Forall (fun c => 0 <= c) fixed ->
   let v0 := fst (mkvec L cap budget fixed aid junk bid tbid) in
   let s0 := {| s_cap := cap; s_elems := [] |} in
-  shist_valid L (fixed_counts L fixed) s0 h -> nt_hist_ok L s0 h ->
+  shist_valid L (fixed_counts L fixed) s0 h -> nt_hist_okx L s0 h ->
   Rep L (vrun L junk v0 h) (s_elems (srun s0 h)).
 Proof.
   intros L cap budget fixed aid junk bid tbid h Hwf Hcap Hfx. cbv zeta. intros Hv Hn.
@@ -570,14 +637,14 @@ Proof.
   { intros Hnv. apply esize_stride_ok; auto. apply fixed_counts_nonneg; auto. }
   destruct (mkvec_rep L Hwf cap budget fixed aid junk bid tbid Hcap Hst) as (R0 & Hc0 & Hf0).
   cbv zeta in *.
-  destruct (vrun_rep_nt L Hwf junk h _ {| s_cap := cap; s_elems := [] |} R0 Hc0) as (R & Hc); auto.
+  destruct (vrun_rep_ntx L Hwf junk h _ {| s_cap := cap; s_elems := [] |} R0 Hc0) as (R & Hc); auto.
 Qed.
 
 Theorem tight_every_history_nt : forall L cap budget fixed aid junk bid tbid h,
   wf_plist L = true -> 0 <= cap -> Forall (fun c => 0 <= c) fixed ->
   let v0 := fst (mkvec L cap budget fixed aid junk bid tbid) in
   let s0 := {| s_cap := cap; s_elems := [] |} in
-  shist_valid L (fixed_counts L fixed) s0 h -> nt_hist_ok L s0 h ->
+  shist_valid L (fixed_counts L fixed) s0 h -> nt_hist_okx L s0 h ->
   let v := vrun L junk v0 h in
   let l := s_elems (srun s0 h) in
   (forall i, (i < length l)%nat -> eaddr L v (Z.of_nat i) = first_align L (prev_end L v l i)) /\
